@@ -7,6 +7,9 @@ ZB = "clematis/engine/stages/t3/bundle.py"
 ZP = "clematis/engine/stages/t3/policy.py"
 ZO = "clematis/engine/orchestrator/core.py"
 CASES = [
+    ("t2k-charged-only-on-miss", "mutant", O, "                if m.get(\"k_used\") is not None:\n                    consumed[\"t2_k\"] = int(m.get(\"k_used\"))\n", "                if m.get(\"k_used\") is not None and not cache_hit:\n                    consumed[\"t2_k\"] = int(m.get(\"k_used\"))\n", "C17.BOUNDARY"),
+    ("t2k-charge-nested-under-cache-test", "mutant", O, "                if m.get(\"k_used\") is not None:\n                    consumed[\"t2_k\"] = int(m.get(\"k_used\"))\n", "                if not cache_hit:\n                    if m.get(\"k_used\") is not None:\n                        consumed[\"t2_k\"] = int(m.get(\"k_used\"))\n", "C17.BOUNDARY"),
+    ("t2k-charge-through-local", "twin", O, "                if m.get(\"k_used\") is not None:\n                    consumed[\"t2_k\"] = int(m.get(\"k_used\"))\n", "                k_seen = m.get(\"k_used\")\n                if k_seen is not None:\n                    consumed[\"t2_k\"] = int(k_seen)\n", None),
     ("next-turn-rotates-queue", "mutant", S, "    eligible = [a for a in q if sched[\"consec_turns\"].get(a, 0) < mct]\n", "    eligible = [a for a in q if sched[\"consec_turns\"].get(a, 0) < mct]\n    q.append(q.pop(0))\n", "C17.PURE"),
     ("next-turn-wall-clock", "mutant", S, "    now = _now_ms(ctx)\n    aging_ms = int(fairness_cfg.get(\"aging_ms\", 200))\n", "    import time\n    now = int(time.time() * 1000)\n    aging_ms = int(fairness_cfg.get(\"aging_ms\", 200))\n", "C17.PURE"),
     ("rr-ignores-eligibility", "mutant", S, "        return eligible[0], {}, \"ROUND_ROBIN\"\n", "        return q[0], {}, \"ROUND_ROBIN\"\n", "C17.ELIG"),
